@@ -6,7 +6,7 @@ set -u
 id=$1; tier=${2:-quick}; prop=${id%%-*}
 d=/verif/seeded/$id
 wt=/tmp/rs.$id
-rm -rf $wt $wt.build $wt.out; git -C /repo worktree prune
+rm -rf $wt $wt.build $wt.out
 git -C /repo worktree add -q --detach $wt HEAD || exit 2
 trap "git -C /repo worktree remove --force $wt 2>/dev/null; rm -rf $wt $wt.build $wt.out" EXIT
 git -C $wt apply $d/patch.diff || { echo "$id: patch does not apply"; exit 2; }
